@@ -171,6 +171,109 @@ def clifford_approx_check(res, rng, npr, reps):
                      {"circuit": describe(c), "out": describe(out)})
 
 
+def check_equal(res, key, label, c, out, tol=2e-7):
+    n = c.qubit_count
+    d = O.phase_dist(O.circuit_unitary(out.gates, out.qubit_count), O.circuit_unitary(c.gates, n)) \
+        if out.qubit_count == n else 9.0
+    if d > tol:
+        res.fail(key, f"unitary differs beyond phase: dist {d:.3e}", {"config": label, "n": n, "circuit": describe(c),
+                                                                     "out": describe(out)})
+
+
+def focused_checks(res, rng, npr, tier):
+    """inputs that random circuits rarely produce"""
+    import itertools
+    # (1) every placement of a CNOT-H-CNOT window on 3 qubits (plus a random prefix/suffix) through every fuser
+    fusers = [("CNOTHCNOTFusingTranspiler", T.CNOTHCNOTFusingTranspiler()), ("FuseRotationTranspiler", T.FuseRotationTranspiler())]
+    cn = [(a, b) for a in range(3) for b in range(3) if a != b]
+    for (c1, t1), h, (c2, t2) in itertools.product(cn, range(3), cn):
+        c = QuantumCircuit(3)
+        if rng.random() < 0.5:
+            c.add_gate(rand_gate(rng, npr, 3, ["H", "S", "RX", "CZ"]))
+        c.add_gate(gates.CNOT(c1, t1))
+        c.add_gate(gates.H(h))
+        c.add_gate(gates.CNOT(c2, t2))
+        if rng.random() < 0.5:
+            c.add_gate(rand_gate(rng, npr, 3, ["H", "T", "RZ", "CNOT"]))
+        for name, tr in fusers[:1]:
+            res.count(("window", name, c1, t1, h, c2, t2), bucket="focused:" + name)
+            check_equal(res, f"sweep:{name}", name + " (window placement)", c, tr(c))
+    # rotation pairs: same/different kinds, same/different qubits, wrap-around angles
+    for _ in range(60 if tier == "quick" else 600):
+        c = QuantumCircuit(2)
+        for _ in range(rng.randint(2, 4)):
+            c.add_gate(getattr(gates, rng.choice(["RX", "RY", "RZ"]))(rng.randrange(2), O.rand_angle(rng)))
+        res.count(("rotpair", tuple(map(str, describe(c)))), bucket="focused:FuseRotationTranspiler")
+        check_equal(res, "sweep:FuseRotationTranspiler", "FuseRotationTranspiler (rotation runs)", c, T.FuseRotationTranspiler()(c))
+    # (2) CliffordConversionTranspiler: make every candidate of its table the selected one
+    try:
+        from quri_parts.circuit.transpile.gateset import _equiv_clifford_table as TAB
+    except Exception:  # noqa: BLE001
+        TAB = {}
+    for key, cands in TAB.items():
+        for j, cand in enumerate(cands):
+            ts = set(cand)
+            if key in ts or any(set(c0) <= ts for c0 in cands[:j]):
+                continue
+            c = QuantumCircuit(2)
+            c.add_gate(getattr(gates, key)(1))
+            c.add_gate(gates.CNOT(1, 0))
+            c.add_gate(getattr(gates, key)(0))
+            tr = T.CliffordConversionTranspiler(sorted(ts))
+            res.count(("cliffcand", key, j), bucket="focused:CliffordConversionTranspiler")
+            out = tr(c)
+            if {g.name for g in out.gates} - ts - {"CNOT"}:
+                continue
+            check_equal(res, "sweep:CliffordConversionTranspiler", f"CliffordConversionTranspiler({sorted(ts)}) key {key} cand {j}", c, out)
+            # the same through GateSetConversionTranspiler (rotations named first)
+            try:
+                g2 = T.GateSetConversionTranspiler(sorted(ts | {"RZ", "CNOT"}))
+                check_equal(res, "sweep:GateSetConversionTranspiler", f"GateSetConversionTranspiler({sorted(ts | {'RZ', 'CNOT'})})", c, g2(c), tol=1e-6)
+            except ValueError:
+                pass
+    # (3) two-qubit unitaries with structure (local equivalents of CNOT / iSWAP / SWAP, degenerate spectra)
+    kak = T.TwoQubitUnitaryMatrixKAKTranspiler()
+    base = {"CNOT": O.local_matrix("CNOT"), "CZ": O.local_matrix("CZ"), "SWAP": O.local_matrix("SWAP"),
+            "iSWAP": np.array([[1, 0, 0, 0], [0, 0, 1j, 0], [0, 1j, 0, 0], [0, 0, 0, 1]], dtype=complex),
+            "sqrtSWAP": np.array([[1, 0, 0, 0], [0, (1 + 1j) / 2, (1 - 1j) / 2, 0], [0, (1 - 1j) / 2, (1 + 1j) / 2, 0], [0, 0, 0, 1]])}
+    for _ in range(200 if tier == "quick" else 3000):
+        bn = rng.choice(sorted(base))
+        r = rng.random()
+        if r < 0.7:
+            m = np.kron(O.random_unitary(npr, 2), O.random_unitary(npr, 2)) @ base[bn] @ np.kron(O.random_unitary(npr, 2), O.random_unitary(npr, 2))
+        elif r < 0.85:
+            t = rng.uniform(0, 1)
+            ph = np.diag(np.exp(1j * np.array([0, t, t, 2 * t])))
+            m = base[bn] @ ph
+        else:
+            m = np.kron(O.random_unitary(npr, 2), np.eye(2)) @ base[bn]
+        c = QuantumCircuit(2)
+        c.add_gate(gates.UnitaryMatrix(rng.sample(range(2), 2), m.tolist()))
+        res.count(("kak", bn, _), bucket="focused:KAK")
+        try:
+            out = kak(c)
+        except ValueError:
+            continue
+        check_equal(res, f"sweep:TwoQubitUnitaryMatrixKAKTranspiler:local_equivalent_of_{bn}", f"KAK on a local equivalent of {bn}", c, out, tol=1e-6)
+    # canonical gate exp(i(a XX + b YY + c ZZ)) followed by a small local rotation on one qubit
+    import scipy.linalg as sl
+    for _ in range(30 if tier == "quick" else 400):
+        ca, cb, cc = (rng.uniform(0.1, 1.4) for _ in range(3))
+        Hm = ca * np.kron(O.PX, O.PX) + cb * np.kron(O.PY, O.PY) + cc * np.kron(O.PZ, O.PZ)
+        d = rng.choice([1e-1, 3e-2, 1e-2, 1e-3, 1e-4])
+        loc = np.kron(O.I2, O.rx(d)) if rng.random() < 0.5 else np.kron(O.ry(d), O.I2)
+        m = sl.expm(1j * Hm) @ loc
+        c = QuantumCircuit(2)
+        c.add_gate(gates.UnitaryMatrix([0, 1], m.tolist()))
+        res.count(("kak-canon", ca, cb, cc, d), bucket="focused:KAK")
+        try:
+            out = kak(c)
+        except ValueError:
+            continue
+        check_equal(res, "sweep:TwoQubitUnitaryMatrixKAKTranspiler:canonical_times_small_local_rotation",
+                    "KAK on exp(i(aXX+bYY+cZZ)) (I x RX(delta))", c, out, tol=1e-6)
+
+
 def main():
     a = O.std_args().parse_args()
     rng = random.Random(a.seed * 104729 + 1)
@@ -213,6 +316,7 @@ def main():
                          {"config": label, "n": n, "circuit": describe(c), "out": describe(out)})
         res.sample({"config": label, "example_circuit": describe(c)[:3]}, limit=3)
     clifford_approx_check(res, rng, npr, reps * 6)
+    focused_checks(res, rng, npr, a.tier)
     res.emit()
 
 
